@@ -19,6 +19,24 @@ type gobCase struct {
 	Words  []string `json:"words,omitempty"` // explicit word list (small cases)
 }
 
+type gobCaseJSON gobCase
+
+func (gc gobCase) MarshalJSON() ([]byte, error) {
+	x := gobCaseJSON(gc)
+	x.Words = lat1encAll(gc.Words)
+	return json.Marshal(x)
+}
+
+func (gc *gobCase) UnmarshalJSON(b []byte) error {
+	var x gobCaseJSON
+	if err := json.Unmarshal(b, &x); err != nil {
+		return err
+	}
+	x.Words = lat1decAll(x.Words)
+	*gc = gobCase(x)
+	return nil
+}
+
 // gobWords materialises the (sorted) word list of a case.
 func gobWords(gc gobCase) []string {
 	var ws []string
@@ -172,12 +190,43 @@ func evalGob(gc gobCase) *Failure {
 		return f
 	}
 	// direct, into a non-empty receiver: must replace it
-	t2, _ := dawg.New([][]byte{[]byte("other"), []byte("words"), []byte("wordsworth")})
-	if msg, p := try(func() { err = t2.GobDecode(enc) }); p || err != nil {
-		return mk("into-nonempty/decode-failed"+sfx, fmt.Sprint(msg, err))
+	for ri, rw := range [][]string{{"other", "words", "wordsworth"}, {"", "q"}, {"", "a", "ab", "b"}} {
+		t2, _ := dawg.New(toBytes(rw, false))
+		if msg, p := try(func() { err = t2.GobDecode(enc) }); p || err != nil {
+			return mk("into-nonempty/decode-failed"+sfx, fmt.Sprint(msg, err))
+		}
+		if f := decodeInto(t2, fmt.Sprintf("into-nonempty-%d", ri)); f != nil {
+			return f
+		}
+		// and a second decode into the receiver that has just been decoded into
+		if msg, p := try(func() { err = t2.GobDecode(enc) }); p || err != nil {
+			return mk("into-nonempty/second-decode-failed"+sfx, fmt.Sprint(msg, err))
+		}
+		if f := decodeInto(t2, fmt.Sprintf("into-decoded-%d", ri)); f != nil {
+			return f
+		}
 	}
-	if f := decodeInto(t2, "into-nonempty"); f != nil {
-		return f
+	// one encoding/gob decoder fed two values in a row into the same receiver
+	{
+		other, _ := dawg.New(toBytes([]string{"", "a"}, false))
+		var buf2 bytes.Buffer
+		ge := gob.NewEncoder(&buf2)
+		gd := gob.NewDecoder(&buf2)
+		t4 := new(dawg.Dawg)
+		if msg, p := try(func() {
+			if err = ge.Encode(other); err == nil {
+				if err = gd.Decode(t4); err == nil {
+					if err = ge.Encode(d); err == nil {
+						err = gd.Decode(t4)
+					}
+				}
+			}
+		}); p || err != nil {
+			return mk("gob-stream/failed"+sfx, fmt.Sprint(msg, err))
+		}
+		if f := decodeInto(t4, "gob-stream"); f != nil {
+			return f
+		}
 	}
 	// through encoding/gob
 	var buf bytes.Buffer
@@ -251,7 +300,7 @@ func runC14(c *Ctx) {
 	c.Rule = "every subset of the 15 words of length <=3 over {a,b} and of the 13 words of length <=2 over {0x00,'m',0xff}, plus boundary families: root branching b for every b in [0,256] (ascending, descending, under a prefix, two levels for b<=40), chains with node counts 2..300, id-discarding builds, word counts across 127/128, 255/256, 65535/65536; each encoded with GobEncode and through encoding/gob, decoded into a fresh and into a non-empty receiver; decoded automaton compared on language, ranks, NumberOfWords, node count, a battery of searches, and byte-identical re-encoding; non-trivial = case with >= 2 words"
 	var cases []gobCase
 	u3 := wordsUpTo([]byte("ab"), 3)
-	stride := uint64(4)
+	stride := uint64(2)
 	if c.Thorough() {
 		stride = 1
 	}
@@ -264,7 +313,7 @@ func runC14(c *Ctx) {
 	}
 	for b := 0; b <= 256; b++ {
 		cases = append(cases, gobCase{Family: "branching", Param: b}, gobCase{Family: "branching-rev", Param: b}, gobCase{Family: "branching-under-prefix", Param: b})
-		if b <= 40 || (c.Thorough() && b%16 == 0) || b == 127 || b == 128 || b == 129 || b == 256 {
+		if b <= 40 || (c.Thorough() && b%16 == 0) || b == 127 || b == 128 || b == 129 || (b == 256 && c.Thorough()) {
 			cases = append(cases, gobCase{Family: "branching-two-levels", Param: b})
 		}
 	}
@@ -277,10 +326,13 @@ func runC14(c *Ctx) {
 		cases = append(cases, gobCase{Family: "discarded-ids", Param: n})
 	}
 	for _, n := range []int{11, 12, 16, 255, 256} {
+		if n > 200 && !c.Thorough() {
+			continue
+		}
 		cases = append(cases, gobCase{Family: "wordcount", Param: n})
 	}
 	for _, n := range []int{126, 127, 128, 129, 254, 255, 256, 257, 65535, 65536, 65537} {
-		if n > 60000 && !c.Thorough() && n != 65536 {
+		if n > 60000 && !c.Thorough() {
 			continue
 		}
 		cases = append(cases, gobCase{Family: "wordcount-exact", Param: n})
